@@ -107,6 +107,77 @@ fn main() {
             std::fs::write(&path, serde_json::to_vec_pretty(&doc).unwrap()).expect("write replay");
             std::process::exit(props::replay_file(&path, true));
         }
+        "bzprobe" => {
+            // research tool: mutate small valid bzip2 streams and decode them through the crate
+            // (as the single Bzip2 entry of an archive); the current input is written to args[2] before
+            // every attempt, so a crash of this process leaves the culprit behind.
+            use std::io::{Read, Write};
+            let out = std::path::PathBuf::from(&args[2]);
+            let seed: u64 = args[3].parse().unwrap();
+            let n: u64 = args[4].parse().unwrap();
+            let mut g = util::Sm(seed);
+            let bases: Vec<Vec<u8>> = [&b"aab"[..], b"abcabcabc", b"aaaaaaaaaaaaaaaaaaaaab", b"ab", b"zzzzyyyx"].iter().map(|d| {
+                let mut e = bzip2::write::BzEncoder::new(Vec::new(), bzip2::Compression::new(1));
+                e.write_all(d).unwrap();
+                e.finish().unwrap()
+            }).collect();
+            struct Bw { v: Vec<u8>, cur: u8, n: u8 }
+            impl Bw {
+                fn bits(&mut self, val: u64, k: u32) { for i in (0..k).rev() { self.cur = (self.cur << 1) | ((val >> i) & 1) as u8; self.n += 1; if self.n == 8 { self.v.push(self.cur); self.cur = 0; self.n = 0; } } }
+                fn done(mut self) -> Vec<u8> { while self.n != 0 { self.bits(0, 1); } self.v }
+            }
+            for it in 0..n {
+                let mut b = if args.len() > 5 {
+                    // synthesise a block with one symbol in use, 2 groups, 4 selectors, random code lengths
+                    let mut w = Bw { v: b"BZh1".to_vec(), cur: 0, n: 0 };
+                    w.bits(0x314159265359, 48);
+                    w.bits(g.next() & 0xffff_ffff, 32);
+                    w.bits(0, 1);
+                    w.bits(0, 24);
+                    w.bits(0x0400, 16); // group 5 in use
+                    w.bits(0x4000, 16); // byte 'a' (0x61 = 5*16+1)
+                    w.bits(2, 3);
+                    w.bits(4, 15);
+                    for _ in 0..4 { if g.next() & 1 == 0 { w.bits(0, 1) } else { w.bits(0b10, 2) } }
+                    for _ in 0..2 {
+                        let mut curr = 1 + (g.next() % 20) as i64;
+                        w.bits(curr as u64, 5);
+                        for _ in 0..3 {
+                            let target = 1 + (g.next() % 20) as i64;
+                            while curr != target { if curr < target { w.bits(0b10, 2); curr += 1 } else { w.bits(0b11, 2); curr -= 1 } }
+                            w.bits(0, 1);
+                        }
+                    }
+                    for _ in 0..8 { w.bits(g.next(), 64); }
+                    w.done()
+                } else { bases[(g.next() % bases.len() as u64) as usize].clone() };
+                let k = if args.len() > 5 { 0 } else { 1 + g.next() % 3 };
+                for _ in 0..k {
+                    let pos = 4 + (g.next() % (b.len() as u64 - 4)) as usize;
+                    b[pos] ^= 1 << (g.next() % 8);
+                }
+                let mut e = zipverif::refzip::EntrySpec::simple(b"x", 12, zipverif::refzip::Content::Bytes(b"aab".to_vec()));
+                e.raw_payload = Some(zipverif::refzip::Content::Bytes(b));
+                let arc = zipverif::refzip::build::build(&zipverif::refzip::ArchiveSpec::plain(vec![e])).unwrap().bytes;
+                std::fs::write(&out, &arc).unwrap();
+                let mut za = zip::ZipArchive::new(std::io::Cursor::new(&arc[..])).unwrap();
+                if let Ok(mut f) = za.by_index(0) {
+                    let mut v = Vec::new();
+                    let _ = f.read_to_end(&mut v);
+                }
+                if it % 100000 == 0 {
+                    eprintln!("bzprobe {it}");
+                }
+            }
+            std::process::exit(0);
+        }
+        "rawexercise" => {
+            // run the C05 driver on the bytes stored in a {"case":{"bytes":hex}} file; used as a child
+            // process for inputs that kill the process
+            let doc: serde_json::Value = serde_json::from_slice(&std::fs::read(&args[2]).expect("file")).expect("json");
+            let bytes = util::unhex(doc["case"]["bytes"].as_str().unwrap_or("")).unwrap_or_default();
+            std::process::exit(if zipverif::robust::exercise(&bytes).is_ok() { 0 } else { 1 });
+        }
         "selftest" => {
             util::install_panic_hook();
             std::process::exit(props::selftest());
@@ -120,7 +191,27 @@ fn main() {
 
 /// Supervisor: run the worker as a child. Exit 0/1 pass through. Death by signal => for each
 /// in-flight case re-run it alone to find the one that kills the process and report it.
+/// Runs the worker; a worker killed by a fatal signal raised INSIDE libbz2 (the listed known finding
+/// C05/bzip2-c-decoder-uninitialised-read: crafted Bzip2 data makes the bundled C decoder read
+/// uninitialised tables, which crashes or not depending on heap garbage) is restarted with the culprit
+/// case left out, so the search continues behind the finding; everything else goes to `supervise_once`.
 fn supervise(prop: &str, tier: &str) -> i32 {
+    let root = std::env::var("ZV_ROOT").unwrap_or_else(|_| "/verif".into());
+    let listed = engine::load_known(&std::path::PathBuf::from(&root)).iter().any(|k| k.key == "bzip2-c-decoder-uninitialised-read");
+    let mut skip: Vec<u64> = Vec::new();
+    loop {
+        let (code, bz2_case) = supervise_once(prop, tier, &skip);
+        match bz2_case {
+            Some(tag) if listed && skip.len() < 50 && !skip.contains(&tag) => {
+                eprintln!("[{prop}] worker was killed inside libbz2 while running case {}:{} - that is the listed known finding C05/bzip2-c-decoder-uninitialised-read; restarting without that case ({} left out so far)", tag >> 48, (tag & 0xffff_ffff_ffff) - 1, skip.len() + 1);
+                skip.push(tag);
+            }
+            _ => return code,
+        }
+    }
+}
+
+fn supervise_once(prop: &str, tier: &str, skip: &[u64]) -> (i32, Option<u64>) {
     let exe = std::env::current_exe().expect("exe");
     let root = std::env::var("ZV_ROOT").unwrap_or_else(|_| "/verif".into());
     let limit = Duration::from_secs(
@@ -129,7 +220,8 @@ fn supervise(prop: &str, tier: &str) -> i32 {
     let inflight = format!("{root}/replays/{prop}/.inflight.bin");
     let _ = std::fs::remove_file(&inflight);
     let t0 = Instant::now();
-    let mut child = Command::new(&exe).args(["worker", prop, tier]).stdin(Stdio::null()).spawn().expect("spawn worker");
+    let skip_s = skip.iter().map(|t| t.to_string()).collect::<Vec<_>>().join(",");
+    let mut child = Command::new(&exe).args(["worker", prop, tier]).env("ZV_SKIP", &skip_s).stdin(Stdio::null()).spawn().expect("spawn worker");
     let status = loop {
         match child.try_wait().expect("wait") {
             Some(s) => break s,
@@ -138,7 +230,7 @@ fn supervise(prop: &str, tier: &str) -> i32 {
                     let _ = child.kill();
                     let _ = child.wait();
                     eprintln!("[{prop}] watchdog: worker exceeded {}s; inconclusive", limit.as_secs());
-                    return 2;
+                    return (2, None);
                 }
                 std::thread::sleep(Duration::from_millis(50));
             }
@@ -146,16 +238,27 @@ fn supervise(prop: &str, tier: &str) -> i32 {
     };
     if let Some(code) = status.code() {
         let _ = std::fs::remove_file(&inflight);
-        return code;
+        return (code, None);
     }
     use std::os::unix::process::ExitStatusExt;
     let sig = status.signal().unwrap_or(0);
     eprintln!("[{prop}] worker died by signal {sig}; diagnosing in-flight cases");
     if sig == libc::SIGKILL {
         eprintln!("[{prop}] killed (OOM?) — inconclusive");
-        return 2;
+        return (2, None);
     }
     let data = std::fs::read(&inflight).unwrap_or_default();
+    // trailer written by the fatal-signal handler: the crashing thread's own case and whether the fault
+    // address lies inside libbz2
+    let n = engine::SLOTS * 8;
+    if data.len() >= n + 16 {
+        let mine = u64::from_le_bytes(data[n..n + 8].try_into().unwrap());
+        let in_bz2 = u64::from_le_bytes(data[n + 8..n + 16].try_into().unwrap());
+        if in_bz2 == 1 && mine != 0 && sig == libc::SIGSEGV {
+            return (2, Some(mine));
+        }
+    }
+    let data = data[..n.min(data.len())].to_vec();
     let mut cands = Vec::new();
     for ch in data.chunks(8) {
         if ch.len() == 8 {
@@ -189,10 +292,10 @@ fn supervise(prop: &str, tier: &str) -> i32 {
             if let Some(p) = found {
                 println!("VIOLATION property={prop} replay={}", p.display());
                 println!("  the process aborts (signal {}) while running this case", st.signal().unwrap_or(0));
-                return 1;
+                return (1, None);
             }
         }
     }
     eprintln!("[{prop}] could not reproduce the crash in isolation — inconclusive");
-    2
+    (2, None)
 }
